@@ -12,6 +12,7 @@ pub mod c10;
 pub mod c11;
 pub mod c12;
 pub mod c13;
+pub mod c14;
 pub mod c15;
 pub mod c17;
 pub mod c19;
@@ -51,6 +52,7 @@ pub fn plan(ctx: &Ctx) -> Option<Plan> {
         "C11" => Some(c11::plan(ctx)),
         "C12" => Some(c12::plan(ctx)),
         "C13" => Some(c13::plan(ctx)),
+        "C14" => Some(c14::plan(ctx)),
         "C15" => Some(c15::plan(ctx)),
         "C17" => Some(c17::plan(ctx)),
         "C19" => Some(c19::plan(ctx)),
